@@ -151,6 +151,20 @@ class Ob:
             self._fail(key, what, path, {'model': str(model)[:1500]})
         return ok
 
+    def prove_all(self, path, claims):
+        """claims: [(z3 claim, key, what)] -- one solver query for the conjunction; on failure each claim is re-checked to name the culprit"""
+        if not claims:
+            return True
+        self.checked += len(claims)
+        ok, model = self.eng.prove(path, z3.And([c for c, _, _ in claims]))
+        if ok:
+            return True
+        for c, key, what in claims:
+            ok1, model = self.eng.prove(path, c)
+            if not ok1:
+                self._fail(key, what, path, {'model': str(model)[:1500]})
+        return False
+
     def _fail(self, key, what, path, detail):
         if key in self._keys:
             return
@@ -202,7 +216,7 @@ def guard(ob_fn):
         try:
             return ob_fn(*a, **k)
         except MirError as e:
-            r = Result(getattr(ob_fn, 'oid', ob_fn.__name__), 'mirsym', ob_fn.__doc__ or ob_fn.__name__)
+            r = Result(getattr(ob_fn, 'oid', ob_fn.__name__.upper()), 'mirsym', ob_fn.__doc__ or ob_fn.__name__)
             r.broken(f'MIR engine: {e}')
             return r
     w.__name__ = ob_fn.__name__
